@@ -2,6 +2,7 @@ import Toq.Model.Entangle
 import Toq.Spec.Entangle
 import Toq.Proofs.Entangle
 import Toq.Proofs.Cert
+import Toq.Proofs.EntangleSk
 import Mathlib.LinearAlgebra.Matrix.Charpoly.Basic
 /-!
 # C14 — entanglement / entropy quantities: closed forms and local-unitary invariance
@@ -508,6 +509,277 @@ theorem rankE_eq_of_rankCert {n m r : Nat} (A : EMat n m) (B : EMat n r) (C : EM
 
 /-- the routine on a concrete complex matrix: `[[1, i, 0], [i, -1, 0], [0, 0, 2]]` has rank 2 (the second row is `i` times the first) -/
 example : rankQ 3 3 (fun i j => ([[⟨1, 0⟩, ⟨0, 1⟩, 0], [⟨0, 1⟩, ⟨-1, 0⟩, 0], [0, 0, ⟨2, 0⟩]] : List (List QI)).getD i [] |>.getD j 0) = 2 := by
+  decide +kernel
+
+/-! ## product operators, invariance of the negativity family, l1 coherence -/
+
+/-- **Product operators are exactly those whose realigned matrix is a product amplitude.**  `X = A ⊗ B` for some `A`, `B` iff the realigned matrix
+    `R[(a,a'),(b,b')] = X[(a,b),(a',b')]` is `x yᵀ`; with `isProduct_iff_minors` this is the vanishing of all 2×2 minors of `R`, which is what the executable
+    `isProductOp` tests (all dimensions). -/
+theorem isProductOp_iff_realign {m n : Type} (X : Matrix (m × n) (m × n) ℂ) :
+    (∃ (A : Matrix m m ℂ) (B : Matrix n n ℂ), X = A ⊗ₖ B) ↔ IsProductAmp (realign X) := by
+  constructor
+  · rintro ⟨A, B, rfl⟩
+    exact ⟨fun p => A p.1 p.2, fun q => B q.1 q.2, fun p q => by simp [realign, Matrix.kroneckerMap_apply]⟩
+  · rintro ⟨x, y, h⟩
+    refine ⟨fun a a' => x (a, a'), fun b b' => y (b, b'), ?_⟩
+    ext ⟨a, b⟩ ⟨a', b'⟩
+    exact h (a, a') (b, b')
+
+/-- **The trace norm is invariant under unitary conjugation**: `‖U X Uᴴ‖₁ = ‖X‖₁` (the positive square root of `(UXUᴴ)ᴴ(UXUᴴ)` is `U √(XᴴX) Uᴴ`). -/
+theorem traceNorm_unitary_conj {ι : Type} [Fintype ι] [DecidableEq ι] (U X : Matrix ι ι ℂ) (hU : Uᴴ * U = 1) :
+    traceNorm (U * X * Uᴴ) = traceNorm X := by
+  unfold traceNorm
+  have hX : (Xᴴ * X).PosSemidef := Matrix.posSemidef_conjTranspose_mul_self X
+  set P := CFC.sqrt (Xᴴ * X) with hP
+  have hPP : P * P = Xᴴ * X := CFC.sqrt_mul_sqrt_self _ hX.nonneg
+  have hPpsd : P.PosSemidef := (CFC.sqrt_nonneg _).posSemidef
+  have e : (U * X * Uᴴ)ᴴ * (U * X * Uᴴ) = U * (Xᴴ * X) * Uᴴ := by
+    rw [Matrix.conjTranspose_mul, Matrix.conjTranspose_mul, Matrix.conjTranspose_conjTranspose]
+    calc U * (Xᴴ * Uᴴ) * (U * X * Uᴴ) = U * Xᴴ * (Uᴴ * U) * X * Uᴴ := by simp only [Matrix.mul_assoc]
+      _ = U * (Xᴴ * X) * Uᴴ := by rw [hU]; simp only [Matrix.mul_one, Matrix.mul_assoc]
+  have hsq : (U * P * Uᴴ) * (U * P * Uᴴ) = (U * X * Uᴴ)ᴴ * (U * X * Uᴴ) := by
+    rw [e, ← hPP]
+    calc U * P * Uᴴ * (U * P * Uᴴ) = U * P * (Uᴴ * U) * P * Uᴴ := by simp only [Matrix.mul_assoc]
+      _ = U * (P * P) * Uᴴ := by rw [hU]; simp only [Matrix.mul_one, Matrix.mul_assoc]
+  rw [CFC.sqrt_unique hsq (hPpsd.mul_mul_conjTranspose_same U).nonneg, Matrix.trace_mul_cycle, hU, Matrix.one_mul]
+
+/-- **Negativity and log-negativity are invariant under local unitaries, for every operator and all local dimensions**: `‖((U ⊗ V) ρ (U ⊗ V)ᴴ)^{T_B}‖₁ = ‖ρ^{T_B}‖₁`
+    (covariance `pT_local_unitary` turns the local unitary into the unitary `U ⊗ V̄` acting on `ρ^{T_B}`). -/
+theorem negativity_local_invariant {m n : Type} [Fintype m] [Fintype n] [DecidableEq m] [DecidableEq n]
+    (U : Matrix m m ℂ) (V : Matrix n n ℂ) (ρ : Matrix (m × n) (m × n) ℂ) (hU : Uᴴ * U = 1) (hV : Vᴴ * V = 1) :
+    traceNorm (pT ((U ⊗ₖ V) * ρ * (U ⊗ₖ V)ᴴ)) = traceNorm (pT ρ) := by
+  have hVc : (V.map star)ᴴ * V.map star = 1 := by
+    have : (V.map star)ᴴ * V.map star = (Vᴴ * V).map star := by
+      ext i j
+      simp [Matrix.mul_apply, Matrix.map_apply, Matrix.conjTranspose_apply]
+    rw [this, hV]
+    ext i j; by_cases h : i = j <;> simp [Matrix.one_apply, h]
+  have hW : (U ⊗ₖ V.map star)ᴴ * (U ⊗ₖ V.map star) = 1 := by
+    rw [Matrix.conjTranspose_kronecker, ← Matrix.mul_kronecker_mul, hU, hVc, Matrix.one_kronecker_one]
+  have := pT_local_unitary U V ρ
+  rw [show (Matrix.kroneckerMap (· * ·) U V) = U ⊗ₖ V from rfl] at this
+  rw [this]
+  exact traceNorm_unitary_conj _ _ hW
+
+/-- **`l1_norm_coherence` computes the sum of the moduli of the off-diagonal entries.**  The code returns `Σ_{ij} |ρ_ij| − tr ρ`; for a positive semidefinite `ρ` (real
+    non-negative diagonal) this is `Σ_{i≠j} |ρ_ij|`. -/
+theorem l1_coherence_mirror {n : Type} [Fintype n] [DecidableEq n] (ρ : Matrix n n ℂ) (hρ : ρ.PosSemidef) :
+    (∑ i, ∑ j, ‖ρ i j‖) - (ρ.trace).re = ∑ i, ∑ j ∈ Finset.univ.erase i, ‖ρ i j‖ := by
+  have hd : ∀ i, ‖ρ i i‖ = (ρ i i).re := by
+    intro i
+    have h := hρ.diag_nonneg (i := i)
+    obtain ⟨h1, h2⟩ := Complex.nonneg_iff.mp h
+    have : ρ i i = ((ρ i i).re : ℂ) := by apply Complex.ext <;> simp [← h2]
+    rw [this, Complex.norm_real, Real.norm_of_nonneg h1]; simp
+  have : ∀ i, ∑ j, ‖ρ i j‖ = (ρ i i).re + ∑ j ∈ Finset.univ.erase i, ‖ρ i j‖ := by
+    intro i
+    rw [← Finset.add_sum_erase _ _ (Finset.mem_univ i), hd]
+  simp only [this, Finset.sum_add_distrib, Matrix.trace, Matrix.diag, Complex.re_sum]
+  ring
+
+/-- for a pure state the off-diagonal moduli sum to `(Σ_i |ψ_i|)² − Σ_i |ψ_i|²` (the closed form the harness compares with) -/
+theorem l1_coherence_pure {n : Type} [Fintype n] [DecidableEq n] (ψ : n → ℂ) :
+    ∑ i, ∑ j ∈ Finset.univ.erase i, ‖ketbra ψ i j‖ = (∑ i, ‖ψ i‖) ^ 2 - ∑ i, ‖ψ i‖ ^ 2 := by
+  have h1 : ∀ i j, ‖ketbra ψ i j‖ = ‖ψ i‖ * ‖ψ j‖ := by
+    intro i j; simp [ketbra, Matrix.vecMulVec_apply]
+  have h2 : (∑ i, ‖ψ i‖) ^ 2 = ∑ i, (‖ψ i‖ ^ 2 + ∑ j ∈ Finset.univ.erase i, ‖ψ i‖ * ‖ψ j‖) := by
+    rw [sq, Finset.sum_mul_sum]
+    refine Finset.sum_congr rfl fun i _ => ?_
+    rw [← Finset.add_sum_erase _ _ (Finset.mem_univ i), sq]
+  simp only [h1]
+  rw [h2, Finset.sum_add_distrib]
+  ring
+
+/-! ## the dimension argument -/
+
+/-- `round(sqrt(d²)) = d` -/
+theorem roundSqrt_sq (d : Nat) : roundSqrt (d * d) = d := by
+  unfold roundSqrt
+  simp [Nat.sqrt_eq]
+
+/-- **`dim` given as a single integer.**  For a vector of length `dA·dB` the argument `dim = dA` is normalised to `[dA, dB]`. -/
+theorem resolveDim_scalar (dA dB : Nat) (hA : 0 < dA) : resolveDim (dA * dB) (.scalar dA) = some (dA, dB) := by
+  show (if dA = 0 then none else some (dA, dA * dB / dA)) = some (dA, dB)
+  rw [if_neg (Nat.pos_iff_ne_zero.mp hA), Nat.mul_div_cancel_left dB hA]
+
+/-- **`dim` omitted.**  For a vector of length `d²` the default is `[d, d]`. -/
+theorem resolveDim_omitted (d : Nat) (hd : 0 < d) : resolveDim (d * d) .omitted = some (d, d) := by
+  show (if roundSqrt (d * d) = 0 then none else some (roundSqrt (d * d), d * d / roundSqrt (d * d))) = some (d, d)
+  rw [roundSqrt_sq, if_neg (Nat.pos_iff_ne_zero.mp hd), Nat.mul_div_cancel_left d hd]
+
+/-- **Every accepted form of `dim` gives the same Schmidt rank**: the mirror of `schmidt_rank` with the raw argument (integer `dA`, the pair, or omitted for equal
+    dimensions) returns the rank of the `dA × dB` amplitude matrix. -/
+theorem schmidtRankArg_scalar (dA dB : Nat) (hA : 0 < dA) (ψ : Nat → QI) :
+    schmidtRankArg (dA * dB) (.scalar dA) ψ = some (schmidtRankSpec dA dB ψ) := by
+  unfold schmidtRankArg
+  rw [resolveDim_scalar dA dB hA, Option.map_some, schmidtRankVec_eq_spec]
+
+theorem schmidtRankArg_pair (N dA dB : Nat) (ψ : Nat → QI) :
+    schmidtRankArg N (.pair dA dB) ψ = some (schmidtRankSpec dA dB ψ) := by
+  show (some (dA, dB)).map (fun d => schmidtRankVec d.1 d.2 ψ) = _
+  rw [Option.map_some, schmidtRankVec_eq_spec]
+
+theorem schmidtRankArg_omitted (d : Nat) (hd : 0 < d) (ψ : Nat → QI) :
+    schmidtRankArg (d * d) .omitted ψ = some (schmidtRankSpec d d ψ) := by
+  unfold schmidtRankArg
+  rw [resolveDim_omitted d hd, Option.map_some, schmidtRankVec_eq_spec]
+
+/-- the same for the operator Schmidt rank (`_operator_schmidt_rank` resolves a 1-D `dim` in the same way and uses it for rows and columns) -/
+theorem schmidtRankOpArg_scalar (dA dB : Nat) (hA : 0 < dA) (hB : 0 < dB) (ρ : Nat → Nat → QI) :
+    schmidtRankOpArg (dA * dB) (.scalar dA) ρ = some (schmidtRankOpSpec dA dB ρ) := by
+  unfold schmidtRankOpArg
+  rw [resolveDim_scalar dA dB hA, Option.map_some, schmidtRankOp_eq_spec dA dB ρ hA hB]
+
+theorem schmidtRankOpArg_omitted (d : Nat) (hd : 0 < d) (ρ : Nat → Nat → QI) :
+    schmidtRankOpArg (d * d) .omitted ρ = some (schmidtRankOpSpec d d ρ) := by
+  unfold schmidtRankOpArg
+  rw [resolveDim_omitted d hd, Option.map_some, schmidtRankOp_eq_spec d d ρ hd hd]
+
+example : resolveDim 12 (.scalar 3) = some (3, 4) := resolveDim_scalar 3 4 (by decide)
+example : resolveDim 9 .omitted = some (3, 3) := resolveDim_omitted 3 (by decide)
+/-- rounding, not truncation: `√12 ≈ 3.46 → 3`, `√13 ≈ 3.61 → 4` -/
+example : roundSqrt 12 = 3 ∧ roundSqrt 13 = 4 := by
+  have h12 : Nat.sqrt 12 = 3 := (Nat.eq_sqrt.mpr ⟨by norm_num, by norm_num⟩).symm
+  have h13 : Nat.sqrt 13 = 3 := (Nat.eq_sqrt.mpr ⟨by norm_num, by norm_num⟩).symm
+  simp [roundSqrt, h12, h13]
+
+/-! ## S(k) operator norm: the bracket clause, certified on both sides
+
+`sk_operator_norm(X, k)` returns `(lo, hi)`; the clause says that they bracket the values `⟨v|X|v⟩` attained by unit vectors `v` of Schmidt rank
+at most `k` (`skValues k X`; for positive semidefinite `X` their supremum is the S(k) norm, see `sk_bilinear_le`).  Vectors are functions on
+pairs `(a, b)`, operators matrices on pairs; `Toq.Sep.unflat` reads a flat matrix (index `a·dB + b`, toqito's convention) on pairs. -/
+
+/-- **The class of vectors is the right one.**  `v` is a sum of `k` product terms with pairwise orthogonal second factors iff its amplitude matrix
+    has rank `≤ k` (the Schmidt rank of the theorems above), for all local dimensions. -/
+theorem schmidtLE_iff_rank_le {m n : Type} [Fintype m] [Fintype n] [DecidableEq m] [DecidableEq n] (k : ℕ) (v : m × n → ℂ) :
+    SchmidtLE k v ↔ (ampOf v).rank ≤ k :=
+  ⟨rank_le_of_schmidtLE v, schmidtLE_of_rank_le v⟩
+
+/-- for `k = 1` these are exactly the product vectors -/
+theorem schmidtLE_one_iff_product {m n : Type} [Fintype m] [Fintype n] [DecidableEq m] [DecidableEq n] (v : m × n → ℂ) :
+    SchmidtLE 1 v ↔ ∃ x y, v = tprod x y :=
+  schmidtLE_one_iff v
+
+/-- **Product projectors stay positive under partial transposition**: `(|x⊗y⟩⟨x⊗y|)^{T_B} = |x⟩⟨x| ⊗ |ȳ⟩⟨ȳ| ⪰ 0`. -/
+theorem pT_product_posSemidef {m n : Type} [Fintype m] [Fintype n] [DecidableEq m] [DecidableEq n] (x : m → ℂ) (y : n → ℂ) :
+    (pT (ketbra (tprod x y))).PosSemidef :=
+  pT_ketbra_tprod_posSemidef x y
+
+/-- **Vectors of Schmidt rank `≤ k` satisfy the reduction-type inequality**: `k·(ρ_A ⊗ 1_B) − ρ ⪰ 0` for `ρ = |v⟩⟨v|`, `ρ_A = tr_B ρ`
+    (operator Cauchy–Schwarz over the `k` Schmidt terms, then `‖y‖²·1 − |y⟩⟨y| ⪰ 0` in each term). -/
+theorem reduction_schmidt_posSemidef {m n : Type} [Fintype m] [Fintype n] [DecidableEq m] [DecidableEq n] (k : ℕ) (v : m × n → ℂ)
+    (hv : SchmidtLE k v) : (redK k (ketbra v)).PosSemidef :=
+  redK_ketbra_posSemidef k v hv
+
+/-- **Weak duality, PPT relaxation (k = 1).**  For every operator `X` on `ℂ^m ⊗ ℂ^n`, every `Y ⪰ 0` and real `λ` with `λ·1 − X − Y^{T_B} ⪰ 0`, every
+    product vector satisfies `⟨v|X|v⟩ ≤ λ·⟨v|v⟩` (because `(|v⟩⟨v|)^{T_B} ⪰ 0` and `tr(Y^{T_B} M) = tr(Y M^{T_B})`). -/
+theorem sk_weak_duality_ppt {m n : Type} [Fintype m] [Fintype n] [DecidableEq m] [DecidableEq n] (X Y : Matrix (m × n) (m × n) ℂ) (lam : ℝ)
+    (hY : Y.PosSemidef) (hS : ((lam : ℂ) • (1 : Matrix (m × n) (m × n) ℂ) - X - pT Y).PosSemidef) (x : m → ℂ) (y : n → ℂ) :
+    expect X (tprod x y) ≤ lam * vnorm2 (tprod x y) :=
+  expect_le_of_ppt_dual X Y lam hY hS x y
+
+/-- **Weak duality, reduction-map relaxation (any k).**  For `Y ⪰ 0` and real `λ` with `λ·1 − X − (k·(tr_B Y) ⊗ 1 − Y) ⪰ 0`, every vector of Schmidt rank
+    `≤ k` satisfies `⟨v|X|v⟩ ≤ λ·⟨v|v⟩`. -/
+theorem sk_weak_duality_reduction {m n : Type} [Fintype m] [Fintype n] [DecidableEq m] [DecidableEq n] (k : ℕ)
+    (X Y : Matrix (m × n) (m × n) ℂ) (lam : ℝ) (hY : Y.PosSemidef)
+    (hS : ((lam : ℂ) • (1 : Matrix (m × n) (m × n) ℂ) - X - redK k Y).PosSemidef) (v : m × n → ℂ) (hv : SchmidtLE k v) :
+    expect X v ≤ lam * vnorm2 v :=
+  expect_le_of_red_dual k X Y lam hY hS v hv
+
+/-- **Upper certificate, k = 1.**  If the executable checker accepts `(Y, LY, λ, LS)` for the exact operator `X`, then every value `⟨v|X|v⟩` attained by a unit
+    product vector is `≤` the returned bound. -/
+theorem checkSkUpperPPT_sound {dA dB p q : Nat} (X Y : EMat (dA * dB) (dA * dB)) (LY : EMat (dA * dB) p) (lam : Rat)
+    (LS : EMat (dA * dB) q) (hi : Rat) (h : checkSkUpperPPT X Y LY lam LS = some hi) :
+    ∀ r ∈ skValues 1 (Toq.Sep.unflat X.toM), r ≤ (hi : ℝ) := by
+  obtain ⟨rfl, hY, hS⟩ := checkSkUpperPPT_eq h
+  have hYp := (Toq.Sep.unflat_posSemidef_iff _).mpr (psdCert_sound _ _ hY)
+  have hSp := (Toq.Sep.unflat_posSemidef_iff _).mpr (psdCert_sound _ _ hS)
+  rw [unflat_slackPPT] at hSp
+  exact skValues_le_of_ppt_dual _ _ _ hYp hSp
+
+/-- **Upper certificate, any k.**  If the executable checker accepts `(Y, LY, λ, LS)` for the exact operator `X` and the index `k`, then every value `⟨v|X|v⟩`
+    attained by a unit vector of Schmidt rank `≤ k` is `≤` the returned bound. -/
+theorem checkSkUpperRed_sound {dA dB p q : Nat} (k : Nat) (X Y : EMat (dA * dB) (dA * dB)) (LY : EMat (dA * dB) p) (lam : Rat)
+    (LS : EMat (dA * dB) q) (hi : Rat) (h : checkSkUpperRed k X Y LY lam LS = some hi) :
+    ∀ r ∈ skValues k (Toq.Sep.unflat X.toM), r ≤ (hi : ℝ) := by
+  obtain ⟨rfl, hY, hS⟩ := checkSkUpperRed_eq h
+  have hYp := (Toq.Sep.unflat_posSemidef_iff _).mpr (psdCert_sound _ _ hY)
+  have hSp := (Toq.Sep.unflat_posSemidef_iff _).mpr (psdCert_sound _ _ hS)
+  rw [unflat_slackRed] at hSp
+  exact skValues_le_of_red_dual k _ _ _ hYp hSp
+
+/-- **Lower certificate.**  If the executable checker accepts the factor matrices `(Xs, Ys)` (`k` columns each, the columns of `Ys` pairwise orthogonal), the
+    returned number is a value `⟨v|X|v⟩` attained by a unit vector of Schmidt rank `≤ k` (the normalised `Σ_i x_i ⊗ y_i`). -/
+theorem checkSkLower_sound {dA dB k : Nat} (X : EMat (dA * dB) (dA * dB)) (Xs : EMat dA k) (Ys : EMat dB k) (lo : Rat)
+    (h : checkSkLower X Xs Ys = some lo) : (lo : ℝ) ∈ skValues k (Toq.Sep.unflat X.toM) := by
+  obtain ⟨ho, hpos, rfl⟩ := checkSkLower_eq h
+  have hv := skVector_schmidtLE Xs Ys ho
+  have hn : ((Toq.Sep.normSqV (skVector Xs Ys) : Rat) : ℝ) = vnorm2 (flatV (Toq.Sep.colV (skVector Xs Ys))) := by
+    rw [Toq.Sep.normSqV_cast, ← Toq.Sep.nsq_eq_re, ← vnorm2_eq_nsq, vnorm2_flat]
+  have hq : ((Toq.Sep.quadForm X (skVector Xs Ys) : Rat) : ℝ)
+      = expect (Toq.Sep.unflat X.toM) (flatV (Toq.Sep.colV (skVector Xs Ys))) := by
+    rw [Toq.Sep.quadForm_cast, ← expect_flat]; rfl
+  have hp : 0 < vnorm2 (flatV (Toq.Sep.colV (skVector Xs Ys))) := by
+    rw [← hn]; exact_mod_cast hpos
+  rw [Rat.cast_div, hn, hq]
+  exact rayleigh_mem_skValues k _ _ hv hp
+
+/-- **The certified bracket.**  A lower certificate and an upper certificate for the same operator and the same `k` always satisfy `lo ≤ hi`; the harness demands
+    `lower bound of toqito ≤ hi + τ` and `upper bound of toqito ≥ lo − τ`. -/
+theorem sk_lower_le_upper {dA dB p q k : Nat} (X Y : EMat (dA * dB) (dA * dB)) (LY : EMat (dA * dB) p) (lam : Rat) (LS : EMat (dA * dB) q)
+    (Xs : EMat dA k) (Ys : EMat dB k) (lo hi : Rat) (hlo : checkSkLower X Xs Ys = some lo)
+    (hhi : checkSkUpperRed k X Y LY lam LS = some hi) : lo ≤ hi := by
+  have := checkSkUpperRed_sound k X Y LY lam LS hi hhi _ (checkSkLower_sound X Xs Ys lo hlo)
+  exact_mod_cast this
+
+/-- the same for the PPT certificate and one product term -/
+theorem sk_lower_le_upper_ppt {dA dB p q : Nat} (X Y : EMat (dA * dB) (dA * dB)) (LY : EMat (dA * dB) p) (lam : Rat) (LS : EMat (dA * dB) q)
+    (Xs : EMat dA 1) (Ys : EMat dB 1) (lo hi : Rat) (hlo : checkSkLower X Xs Ys = some lo)
+    (hhi : checkSkUpperPPT X Y LY lam LS = some hi) : lo ≤ hi := by
+  have := checkSkUpperPPT_sound X Y LY lam LS hi hhi _ (checkSkLower_sound X Xs Ys lo hlo)
+  exact_mod_cast this
+
+/-- **For positive semidefinite operators the one-vector values control the two-vector norm.**  `‖X‖_{S(k)} = sup |⟨w|X|v⟩|` over unit vectors of Schmidt rank
+    `≤ k`; if `X ⪰ 0` and every value `⟨v|X|v⟩` of such vectors is `≤ c`, then `|⟨w|X|v⟩|² ≤ c²` for all such `v`, `w` (Cauchy–Schwarz for `X`). -/
+theorem sk_bilinear_le {m n : Type} [Fintype m] [Fintype n] [DecidableEq m] [DecidableEq n] (k : ℕ) (X : Matrix (m × n) (m × n) ℂ)
+    (hX : X.PosSemidef) (c : ℝ) (hc : ∀ r ∈ skValues k X, r ≤ c) (v w : m × n → ℂ) (hv : SchmidtLE k v) (hw : SchmidtLE k w)
+    (nv : vnorm2 v = 1) (nw : vnorm2 w = 1) : Complex.normSq (star w ⬝ᵥ (X *ᵥ v)) ≤ c * c := by
+  have h1 := hc _ ⟨v, hv, nv, rfl⟩
+  have h2 := hc _ ⟨w, hw, nw, rfl⟩
+  have p1 : 0 ≤ expect X v := (Complex.nonneg_iff.mp (hX.dotProduct_mulVec_nonneg v)).1
+  have p2 : 0 ≤ expect X w := (Complex.nonneg_iff.mp (hX.dotProduct_mulVec_nonneg w)).1
+  exact (normSq_bilinear_le X hX w v).trans (mul_le_mul h2 h1 p1 (p2.trans h2))
+
+/-- `⟨v|(c·1 − X)|v⟩ = c·⟨v|v⟩ − ⟨v|X|v⟩` -/
+theorem expect_shift {ι : Type} [Fintype ι] [DecidableEq ι] (X : Matrix ι ι ℂ) (c : ℝ) (v : ι → ℂ) :
+    expect ((c : ℂ) • (1 : Matrix ι ι ℂ) - X) v = c * vnorm2 v - expect X v := by
+  unfold expect
+  rw [Matrix.sub_mulVec, dotProduct_sub, Matrix.smul_mulVec, Matrix.one_mulVec, dotProduct_smul, vnorm2_eq_nsq,
+    Toq.Sep.star_dotProduct_self, smul_eq_mul, Complex.sub_re, ← Complex.ofReal_mul, Complex.ofReal_re]
+
+/-- **`is_block_positive` reduces to the S(k) bracket.**  `X` is k-block positive (`⟨v|X|v⟩ ≥ 0` for every unit vector of Schmidt rank `≤ k`) iff every value attained
+    by such vectors on `c·1 − X` is `≤ c`, for every real `c` (the code takes `c = ‖X‖` and compares the bounds of `sk_operator_norm(c·1 − X, k)` with `c`). -/
+theorem blockPositive_iff_sk_le {m n : Type} [Fintype m] [Fintype n] [DecidableEq m] [DecidableEq n] (k : ℕ)
+    (X : Matrix (m × n) (m × n) ℂ) (c : ℝ) :
+    (∀ r ∈ skValues k X, 0 ≤ r) ↔ (∀ r ∈ skValues k ((c : ℂ) • (1 : Matrix (m × n) (m × n) ℂ) - X), r ≤ c) := by
+  constructor
+  · rintro h r ⟨v, hv, hn, rfl⟩
+    have := h _ ⟨v, hv, hn, rfl⟩
+    rw [expect_shift, hn]; linarith
+  · rintro h r ⟨v, hv, hn, rfl⟩
+    have := h _ ⟨v, hv, hn, rfl⟩
+    rw [expect_shift, hn] at this; linarith
+
+/-- certificates that are accepted: `X` = projector onto the Bell vector `(|00⟩ + |11⟩)/√2` on `2 × 2`, `Y = (1/2 − X)^{T_B}` (the antisymmetric projector),
+    `λ = 1/2`; the product vector `|00⟩` attains `1/2`, so the bracket is tight: the S(1) norm of the Bell projector is `1/2` -/
+example :
+    let X : EMat (2 * 2) (2 * 2) := EMat.ofFn fun i j => if (i.val = 0 ∨ i.val = 3) ∧ (j.val = 0 ∨ j.val = 3) then ⟨1/2, 0⟩ else 0
+    let Y : EMat (2 * 2) (2 * 2) := EMat.ofFn fun i j =>
+      if (i.val = 1 ∨ i.val = 2) ∧ (j.val = 1 ∨ j.val = 2) then (if i.val = j.val then ⟨1/2, 0⟩ else ⟨-1/2, 0⟩) else 0
+    let e0 : EMat 2 1 := EMat.ofFn fun i _ => if i.val = 0 then 1 else 0
+    checkSkUpperPPT X Y (EMat.zero : EMat (2 * 2) 1) (1/2) (EMat.zero : EMat (2 * 2) 1) = some (1/2)
+      ∧ checkSkLower X e0 e0 = some (1/2) := by
   decide +kernel
 
 end Toq.C14
